@@ -678,3 +678,6 @@ def classify(c, o, failure, disagrees):
         if 1 < theta < math.pi and abs(math.sin(theta)) < SMALL * (1 + BAND):
             return "halfturn_zone_axis_flip"
     return None
+
+# added with seeded rounds 6-7 (DESIGN 8.6)
+RULE = RULE + '; every case overwrites the arrays a call returned and repeats the call (results must not share state)'
